@@ -81,6 +81,25 @@ func genQueryKind(t *rapid.T) string {
 	return rapid.SampledFrom(append([]string{"once", "unknown"}, queryKinds...)).Draw(t, "query")
 }
 
+// genQOpts draws the optional fields of client.Query that are set besides the
+// kind of the query (queryOpts): none two times in three, otherwise 1-3.
+func genQOpts(t *rapid.T) []string {
+	if rapid.IntRange(0, 2).Draw(t, "query-opts") != 2 {
+		return nil
+	}
+	picked := map[string]bool{}
+	for i, n := 0, rapid.SampledFrom([]int{1, 1, 2, 3}).Draw(t, "n-query-opts"); i < n; i++ {
+		picked[rapid.SampledFrom(queryOpts).Draw(t, "query-opt")] = true
+	}
+	var out []string
+	for _, o := range queryOpts { // canonical order
+		if picked[o] {
+			out = append(out, o)
+		}
+	}
+	return out
+}
+
 // genErrKind draws "" (the default value of the site) with probability
 // (oneIn-1)/oneIn, otherwise one of kinds.
 func genErrKind(t *rapid.T, label string, kinds []string, oneIn int) string {
@@ -109,6 +128,7 @@ func genScenario(t *rapid.T, favourDefault bool) *Scenario {
 	sc.Stop = rapid.SampledFrom([]string{"close", "close", "close", "close", "cancel", "cancel"}).Draw(t, "stop")
 	sc.Decoy, sc.DecoyFirst = genDecoy(t)
 	sc.Query = genQueryKind(t)
+	sc.QOpts = genQOpts(t)
 	// how the caller's context ends (Stop "cancel") / what else it carries
 	sc.Ctx = genCtxKind(t)
 	if sc.Stop == "cancel" && sc.Ctx == "" && rapid.Bool().Draw(t, "ctx-deadline") {
@@ -133,7 +153,7 @@ func genScenario(t *rapid.T, favourDefault bool) *Scenario {
 		return sc
 	}
 
-	sc.NilCallbacks = rapid.IntRange(0, 11).Draw(t, "nil-callbacks") == 11
+	sc.NilCallbacks, sc.Callbacks = genCallbacks(t)
 	minAttempts := rapid.SampledFrom([]int{0, 0, 1, 2, 3, 4}).Draw(t, "min-attempts")
 	sc.Attempts = rapid.SliceOfN(rapid.Custom(genAttempt), minAttempts, 6).Draw(t, "attempts")
 	mode := rapid.SampledFrom([]string{"phase", "phase", "phase", "phase", "phase", "phase", "uniform", "uniform", "late", "before-subscribe",
@@ -287,7 +307,9 @@ func genLife(t *rapid.T, profile string) *LScenario {
 	sc.BaseDelay = rapid.SampledFrom([]int{2, 2, 3, 4, 6, 10, 20, 500}).Draw(t, "base-delay")
 	sc.MaxDelay = sc.BaseDelay * rapid.SampledFrom([]int{1, 2, 2, 3, 5, 10}).Draw(t, "max-factor")
 	sc.Timeout = rapid.SampledFrom([]int{0, 0, 5, 50}).Draw(t, "timeout")
-	sc.NilCallbacks = rapid.IntRange(0, 11).Draw(t, "nil-callbacks") == 11 && !sc.Plain
+	if nc, cb := genCallbacks(t); !sc.Plain {
+		sc.NilCallbacks, sc.Callbacks = nc, cb
+	}
 	sc.Decoy, sc.DecoyFirst = genDecoy(t)
 	minAttempts := 0
 	if entry {
@@ -333,9 +355,9 @@ func genLife(t *rapid.T, profile string) *LScenario {
 	sc.Ops = rapid.SliceOfN(rapid.Custom(func(t *rapid.T) LifeOp {
 		op := LifeOp{Kind: rapid.SampledFrom(kinds).Draw(t, "kind"), Wait: rapid.SampledFrom(waits).Draw(t, "wait")}
 		op.Cancelled = rapid.IntRange(0, 9).Draw(t, "cancelled-context") == 9 && op.Kind == "subscribe"
-		q, ck, dl := genQueryKind(t), genCtxKind(t), rapid.SampledFrom(deadlines).Draw(t, "deadline")
+		q, ck, dl, qo := genQueryKind(t), genCtxKind(t), rapid.SampledFrom(deadlines).Draw(t, "deadline"), genQOpts(t)
 		if op.Kind == "subscribe" {
-			op.Query, op.Ctx = q, ck
+			op.Query, op.Ctx, op.QOpts = q, ck, qo
 			if ctxSelfEnding(ck) && !op.Cancelled {
 				op.Deadline = dl
 			}
@@ -421,8 +443,58 @@ func genRConn(t *rapid.T) RConn {
 		c.N = rapid.IntRange(0, 3).Draw(t, "n")
 		c.Sync = rapid.IntRange(0, 3).Draw(t, "sync") != 0
 		c.End = rapid.SampledFrom([]string{"block", "block", "err", "eof"}).Draw(t, "end")
+		// a stream that is held open: quiet, or with a burst behind the gate
+		if b := rapid.SampledFrom([]int{0, 0, 4, 16, 64}).Draw(t, "burst"); c.End == "block" {
+			c.Burst = b
+		}
 	}
 	return c
+}
+
+// genRShape draws the shape of the query and of the caller's context of one
+// Subscribe step of part "real": one call in three is the minimal query under
+// a cancel function, the others set 1-4 optional fields / another type / a
+// context that carries values, parents or a deadline.
+func genRShape(t *rapid.T, s *RStep, plain bool) {
+	if rapid.IntRange(0, 2).Draw(t, "shape-varied") == 0 {
+		return
+	}
+	pool := []string{"extra", "extra", "extra", "credentials", "credentials", "replica", "updates-only", "address-chains", "encoding", "no-target", "subreq", "subreq-only", "proto", "proto", "proto", "timeout-unset"}
+	if plain {
+		pool = append(pool, "tunnel-conn", "tunnel-no-addrs")
+	}
+	picked := map[string]bool{}
+	for i, n := 0, rapid.SampledFrom([]int{0, 1, 1, 1, 2, 2, 3, 4}).Draw(t, "n-opts"); i < n; i++ {
+		picked[rapid.SampledFrom(pool).Draw(t, "opt")] = true
+	}
+	if s.Query == "dead" {
+		delete(picked, "timeout-unset")
+	}
+	if s.Query != "" {
+		// (a request given ready-made is not built from the rejected path)
+		delete(picked, "subreq")
+		delete(picked, "subreq-only")
+	}
+	if picked["tunnel-conn"] {
+		delete(picked, "tunnel-no-addrs")
+	}
+	if picked["subreq-only"] {
+		delete(picked, "subreq")
+	}
+	for _, o := range realOpts { // canonical order
+		if picked[o] {
+			s.Opts = append(s.Opts, o)
+		}
+	}
+	types := []string{"", "", "", "", "", "poll"}
+	if plain {
+		types = append(types, "once", "poll")
+	}
+	s.Type = rapid.SampledFrom(types).Draw(t, "type")
+	s.Ctx = rapid.SampledFrom([]string{"", "", "deadline", "deadline", "parent-deadline", "value-deadline", "far-deadline", "value", "parent-cancel"}).Draw(t, "ctx")
+	if ctxSelfEnding(s.Ctx) {
+		s.Deadline = rapid.SampledFrom([]int{0, 1, 2, 3, 5, 5, 10, 10, 20}).Draw(t, "deadline-ms")
+	}
 }
 
 func genRStep(t *rapid.T) RStep {
@@ -433,6 +505,7 @@ func genRStep(t *rapid.T) RStep {
 		s.N = 0
 	}
 	if s.Kind != "subscribe" {
+		s.Burst = rapid.IntRange(0, 2).Draw(t, "open-burst") == 0
 		return s
 	}
 	switch rapid.IntRange(0, 9).Draw(t, "query-kind") {
@@ -457,8 +530,26 @@ func genReal(t *rapid.T) *RScenario {
 	sc := &RScenario{}
 	sc.Client = rapid.SampledFrom([]string{"base", "base", "cache"}).Draw(t, "client")
 	sc.Plain = rapid.IntRange(0, 3).Draw(t, "plain") == 3
-	sc.NilCallbacks = rapid.IntRange(0, 11).Draw(t, "nil-callbacks") == 11 && !sc.Plain
+	if nc, cb := genCallbacks(t); !sc.Plain {
+		sc.NilCallbacks, sc.Callbacks = nc, cb
+	}
+	sc.TLS = rapid.IntRange(0, 4).Draw(t, "tls") == 4
+	sc.NoEndWait = rapid.IntRange(0, 3).Draw(t, "no-end-wait") == 3
+	// Profile "ctx-end" (one case in three) aims at subscriptions that are ended
+	// through their context while the server holds the stream open: the scripted
+	// connections all deliver data and then stay (quiet or with a burst), the
+	// first step is a Subscribe with a valid query and the second the end of its
+	// context (cancel function after the sync / at once, or its own deadline).
+	ctxEnd := rapid.IntRange(0, 2).Draw(t, "profile-ctx-end") == 0
 	sc.Conns = rapid.SliceOfN(rapid.Custom(genRConn), 0, 4).Draw(t, "conns")
+	if ctxEnd {
+		for i := range sc.Conns {
+			c := &sc.Conns[i]
+			if c.Mode != "data" || c.End != "block" {
+				*c = RConn{Mode: "data", N: c.N, Sync: true, End: "block", Burst: rapid.SampledFrom([]int{0, 4, 16, 64}).Draw(t, "profile-burst")}
+			}
+		}
+	}
 	if len(sc.Conns) == 0 {
 		sc.Conns = nil
 	}
@@ -466,6 +557,51 @@ func genReal(t *rapid.T) *RScenario {
 	if rapid.IntRange(0, 5).Draw(t, "subscribe-first") != 0 && sc.Steps[0].Kind != "subscribe" {
 		sc.Steps[0] = RStep{Kind: "subscribe", Query: rapid.SampledFrom(append([]string{"", ""}, realBadKinds...)).Draw(t, "first-query")}
 	}
+	if ctxEnd {
+		first := &sc.Steps[0]
+		if first.Kind != "subscribe" {
+			*first = RStep{Kind: "subscribe"}
+		}
+		first.Query, first.Cancelled = "", false
+		if rapid.IntRange(0, 3).Draw(t, "profile-keeps-trap") != 0 {
+			first.Trap, first.TrapAct, first.TrapAttempt, first.TrapLinger = "", "", 0, false
+		}
+		second := RStep{Kind: "cancel", After: rapid.SampledFrom([]string{"sync", "sync", "sync", "begin", ""}).Draw(t, "profile-cancel-after"), Burst: rapid.IntRange(0, 2).Draw(t, "profile-open-burst") != 0}
+		if len(sc.Steps) < 2 {
+			sc.Steps = append(sc.Steps, second)
+		} else {
+			sc.Steps[1] = second
+		}
+		if second.Burst {
+			// the stream the stop action finds has a burst behind the gate
+			if len(sc.Conns) == 0 {
+				sc.Conns = []RConn{{Mode: "data", N: 1, Sync: true, End: "block"}}
+			}
+			if sc.Conns[0].Burst == 0 {
+				sc.Conns[0].Burst = rapid.SampledFrom([]int{4, 16, 64}).Draw(t, "profile-first-burst")
+			}
+		}
+	}
+	for i := range sc.Steps {
+		if s := &sc.Steps[i]; s.Kind == "subscribe" {
+			genRShape(t, s, sc.Plain)
+		}
+	}
+	if ctxEnd {
+		// two in three: a Stream subscription ended by a cancel function while
+		// it streams; one in three: by a deadline that lands in the stream
+		first := &sc.Steps[0]
+		if rapid.IntRange(0, 2).Draw(t, "profile-deadline") == 0 {
+			first.Ctx = rapid.SampledFrom([]string{"deadline", "parent-deadline", "value-deadline"}).Draw(t, "profile-ctx")
+			first.Deadline = rapid.SampledFrom([]int{5, 10, 20, 40}).Draw(t, "profile-deadline-ms")
+		} else if ctxSelfEnding(first.Ctx) {
+			first.Ctx, first.Deadline = rapid.SampledFrom([]string{"", "value", "parent-cancel", "far-deadline"}).Draw(t, "profile-ctx"), 0
+		}
+		if first.Type != "" && rapid.Bool().Draw(t, "profile-stream") {
+			first.Type = ""
+		}
+	}
+	hasDisc, hasReset := callbacksGiven(sc.NilCallbacks, sc.Callbacks)
 	// Make the steps fit the state the sequence is in (the runner skips what
 	// does not): no Subscribe while the previous one is open, waits that the
 	// latest Subscribe call can satisfy.
@@ -479,7 +615,7 @@ func genReal(t *rapid.T) *RScenario {
 		switch {
 		case cur == nil:
 			s.After, s.N = "", 0
-		case s.After == "sync" && (cur.Query != "" || !open):
+		case s.After == "sync" && (cur.Query != "" || !open) && !ctxSelfEnding(cur.Ctx):
 			s.After = "disc"
 		case s.After == "trap" && (cur.Trap == "" || !open):
 			s.After = "begin"
@@ -492,7 +628,7 @@ func genReal(t *rapid.T) *RScenario {
 		if cur != nil && open && cur.Query != "" && cur.Query != "dead" && (s.After == "" || s.After == "begin") && rapid.IntRange(0, 2).Draw(t, "let-it-fail") != 0 {
 			s.After, s.N = "disc", rapid.IntRange(1, 3).Draw(t, "failures")
 		}
-		if s.After == "disc" && (sc.Plain || sc.NilCallbacks || !open) {
+		if s.After == "disc" && (sc.Plain || !(hasDisc || hasReset) || !open) {
 			s.After = "ret"
 		}
 		if s.After == "disc" && s.N == 0 {
@@ -504,8 +640,9 @@ func genReal(t *rapid.T) *RScenario {
 		switch s.Kind {
 		case "subscribe":
 			cur = s
-			// a trap is a stop action of its own, but it may never fire
-			open = !s.Cancelled && (sc.Plain || !closed)
+			// a trap is a stop action of its own, but it may never fire; a
+			// context with a deadline ends by itself
+			open = !s.Cancelled && (sc.Plain || !closed) && !ctxSelfEnding(s.Ctx)
 		case "cancel":
 			open = false
 		case "close":
@@ -614,7 +751,9 @@ func genX(t *rapid.T, part string) *XScenario {
 	}
 	sc.Client = rapid.SampledFrom(clients).Draw(t, "client")
 	sc.Plain = rapid.IntRange(0, 5).Draw(t, "plain") == 5
-	sc.NilCallbacks = rapid.IntRange(0, 11).Draw(t, "nil-callbacks") == 11 && !sc.Plain
+	if nc, cb := genCallbacks(t); !sc.Plain {
+		sc.NilCallbacks, sc.Callbacks = nc, cb
+	}
 	sc.BaseDelay = rapid.SampledFrom([]int{2, 2, 3, 4, 6, 10, 20, 500}).Draw(t, "base-delay")
 	sc.MaxDelay = sc.BaseDelay * rapid.SampledFrom([]int{1, 2, 2, 3, 5, 10}).Draw(t, "max-factor")
 	sc.Timeout = rapid.SampledFrom([]int{0, 0, 5, 50}).Draw(t, "timeout")
